@@ -124,6 +124,12 @@ package index
 //@   ensures @file-fresh idx.file == old(idx.file) || fresh(idx.file)
 //@   ensures @start-below-limit err == nil ==> idx.length - (len(newData) + 8) < idx.maxFileSize
 //@   ensures @position err == nil ==> blk.Offset == wrapu64(ibpos(idx.fileNum, idx.maxFileSize, idx.length - len(newData) - 4))
+// record layout (writer side): a 4-byte little-endian size prefix holding 4 + len(list), the 4-byte
+// bucket number, the record list - what scanIndexFile, reapIndexRecords, Iterator.Next and
+// readDiskBucket read back
+//@   assert at before call (*bufio.Writer).Write#0: @layout-size-prefix len($a1) == 4 && le32(bytes($a1), 0) == len(newData) + 4
+//@   assert at before call (*bufio.Writer).Write#1: @layout-bucket-tag len($a1) == 4 && le32(bytes($a1), 0) == bucket
+//@   assert at before call (*bufio.Writer).Write#2: @layout-list $a1 == newData
 //@   ensures @size err == nil ==> blk.Size == len(newData) + 4 && work == len(newData) + 8
 //@   ensures @rollover err == nil ==> (old(idx.length) >= idx.maxFileSize ==> idx.fileNum == wrapu32(old(idx.fileNum) + 1) && idx.length == len(newData) + 8) && (old(idx.length) < idx.maxFileSize ==> idx.fileNum == old(idx.fileNum) && idx.length == old(idx.length) + len(newData) + 8)
 //@   ensures @nonzero err == nil ==> blk.Offset != 0 || wrapu64(ibpos(idx.fileNum, idx.maxFileSize, idx.length - len(newData) - 4)) == 0
